@@ -331,13 +331,14 @@ def run(ctx):
     })
 
 
-THEOREMS = []
+THEOREMS = ["C47_window_totals", "C47_window_alignment", "C47_state_machine", "C47_opens_exactly_when", "C47_open_rejects", "C47_halfopen_exits",
+            "C47_sem_bounded", "C47_sem_counts_probes", "C47_admitted_without_token_only_when_closed", "C47_concurrent_probes_bounded"]
 
 META = {
     "ready": False,
     "category": "proof",
     "technique": "Rocq proof over an executable model of the breaker + differential execution against the real breaker through Execute with a scripted clock + concurrent probe bursts",
-    "text": "",
+    "text": "The bucket ring (advance/hard reset/add/totals), tryAcquire, record, transitionTo and the half-open semaphore are modelled as written; proved for all histories: the ring's totals are the outcomes since the last reset within the last window at bucket granularity; the state follows the state-machine table (closed->open exactly when total>=minRequests and the rate is reached; open rejects everything before openUntil; half-open closes on enough good samples, reopens on a reached rate); the semaphore never exceeds halfOpenMaxCalls and equals the probes in flight; for any number of callers interleaved at the breaker's atomic operations at most cap probes run concurrently.",
     "design_ref": "DESIGN.md 7/C47",
-    "level_note": "",
+    "level_note": "Trusted: Coq kernel, hand-written model tied by per-event state comparison through Execute, scripted options clock. The float64 rate test is a parameter of the model (exact rational comparison for execution); the non-atomicity of record() (add, then transition) is covered only by the over-approximating interleaving model of the semaphore, not by the window/transition theorems.",
 }
